@@ -27,104 +27,7 @@ func runC18(c *Ctx) {
 	p := c.P
 	pos := func(in ssa.Instruction) string { return p.Pos(in.Pos()) }
 
-	// ---------- R1 receive page tagged with the order id the packet will get ----------
-	getNext := p.Func("(*packetManager).getNextOrderID")
-	newOID := p.Func("(*packetManager).newOrderID")
-	newReq := p.Func("(*packetManager).newOrderedRequest")
-	if getNext == nil || newOID == nil || newReq == nil {
-		c.missing("R1", "getNextOrderID/newOrderID/newOrderedRequest")
-	} else {
-		var nextT, issuedT term
-		okNext, okIssued := false, false
-		eachInstr(getNext, func(in ssa.Instruction) {
-			if r, ok := in.(*ssa.Return); ok && isReturn(in) {
-				nextT = affineOf(r.Results[0])
-				okNext = true
-			}
-		})
-		// newOrderID: the value stored into packetCount, and the value returned is a load after that store
-		var st *ssa.Store
-		eachInstr(newOID, func(in ssa.Instruction) {
-			if s, ok := in.(*ssa.Store); ok {
-				if fa, ok := s.Addr.(*ssa.FieldAddr); ok {
-					if _, n, _, _ := fieldOf(fa); n == "packetCount" {
-						st = s
-					}
-				}
-			}
-		})
-		if st != nil {
-			issuedT = affineOf(st.Val)
-			eachInstr(newOID, func(in ssa.Instruction) {
-				if r, ok := in.(*ssa.Return); ok && isReturn(in) {
-					for _, l := range leavesOf(r.Results[0]) {
-						if l.Kind == leafFieldLoad && l.Field == "packetCount" {
-							if li, ok := l.V.(ssa.Instruction); ok && dominates(st, li) {
-								okIssued = true
-							}
-						}
-						if l.V == st.Val {
-							okIssued = true
-						}
-					}
-				}
-			})
-		}
-		c.check(okNext && okIssued && nextT.equal(issuedT), "R1", "getNextOrderID predicts newOrderID", p.Pos(getNext.Pos()),
-			"both are packetCount+1", fmt.Sprintf("getNextOrderID returns %s but the next order id issued is %s: the page that holds a received packet is filed under another request's order id and released while still in use", nextT, issuedT))
-		for _, name := range []string{"(*Server).Serve", "(*RequestServer).serveLoop"} {
-			fn := p.Func(name)
-			if fn == nil {
-				c.missing("R1", name)
-				continue
-			}
-			c.looked(name)
-			recvs := callsWhere(fn, func(cc *ssa.CallCommon) bool { return calleeName(cc) == "recvPacket" })
-			if len(recvs) != 1 {
-				c.und("R1", name+" recvPacket", p.Pos(fn.Pos()), fmt.Sprintf("%d recvPacket calls", len(recvs)))
-				continue
-			}
-			rc := recvs[0]
-			arg := argsOf(callOf(rc))[0]
-			fromNext := false
-			for _, l := range leavesOf(arg) {
-				if l.Kind == leafCallResult && l.Call.StaticCallee() == getNext {
-					fromNext = true
-				}
-			}
-			c.check(fromNext, "R1", name+" receive page tag", pos(rc), "recvPacket(getNextOrderID())", "the receive buffer is not tagged with getNextOrderID()")
-			l := innermostLoop(loopsOf(fn), rc.Block())
-			if l == nil {
-				c.bad("R1", name+" receive loop", pos(rc), "recvPacket is not in a loop")
-				continue
-			}
-			isNewReq := func(in ssa.Instruction) bool {
-				cc := callOf(in)
-				return cc != nil && cc.StaticCallee() == newReq
-			}
-			_, mx, n := countPaths(fn, rc, isLoopHeadStart(l), isNewReq)
-			c.check(n == 0 || mx <= 1, "R1", name+" one order id per received packet", pos(rc), "at most one newOrderedRequest between two receives", "more than one order id can be issued per received packet: the prediction used to tag the page is off")
-		}
-		// the connection and the packet manager share one allocator
-		for _, name := range []string{"WithAllocator$1", "WithRSAllocator$1"} {
-			fn := p.Func(name)
-			if fn == nil {
-				c.missing("R1", name)
-				continue
-			}
-			var vals []ssa.Value
-			eachInstr(fn, func(in ssa.Instruction) {
-				if s, ok := in.(*ssa.Store); ok {
-					if fa, ok := s.Addr.(*ssa.FieldAddr); ok {
-						if _, n, _, _ := fieldOf(fa); n == "alloc" {
-							vals = append(vals, s.Val)
-						}
-					}
-				}
-			})
-			c.check(len(vals) == 2 && vals[0] == vals[1], "R1", name+" one allocator", p.Pos(fn.Pos()), "conn and packet manager get the same allocator", "the connection and the packet manager do not share one allocator: pages taken at receive are never released")
-		}
-	}
+	checkPageTagging(c, "R1")
 
 	// ---------- R2 READ data page tagged with the request's order id ----------
 	{
@@ -790,4 +693,109 @@ func checkEOFCondition(c *Ctx, fn *ssa.Function, call *ssa.Call, rule, name stri
 		c.check(status == want, rule, name+" status iff error without entries ("+desc+")", p.Pos(call.Pos()),
 			map[int]string{1: "answers STATUS", 0: "answers the entries"}[want], fmt.Sprintf("for %s the reply is %s; expected %s", desc, map[int]string{1: "a STATUS", 0: "not a STATUS", -1: "undetermined"}[status], map[int]string{1: "a STATUS", 0: "the entries"}[want]))
 	}
+}
+
+// checkPageTagging: the page that receives a packet is filed under the order id that packet will get (shared by C01 and C18).
+func checkPageTagging(c *Ctx, rule string) {
+	p := c.P
+	pos := func(in ssa.Instruction) string { return p.Pos(in.Pos()) }
+	// ---------- R1 receive page tagged with the order id the packet will get ----------
+	getNext := p.Func("(*packetManager).getNextOrderID")
+	newOID := p.Func("(*packetManager).newOrderID")
+	newReq := p.Func("(*packetManager).newOrderedRequest")
+	if getNext == nil || newOID == nil || newReq == nil {
+		c.missing(rule, "getNextOrderID/newOrderID/newOrderedRequest")
+	} else {
+		var nextT, issuedT term
+		okNext, okIssued := false, false
+		eachInstr(getNext, func(in ssa.Instruction) {
+			if r, ok := in.(*ssa.Return); ok && isReturn(in) {
+				nextT = affineOf(r.Results[0])
+				okNext = true
+			}
+		})
+		// newOrderID: the value stored into packetCount, and the value returned is a load after that store
+		var st *ssa.Store
+		eachInstr(newOID, func(in ssa.Instruction) {
+			if s, ok := in.(*ssa.Store); ok {
+				if fa, ok := s.Addr.(*ssa.FieldAddr); ok {
+					if _, n, _, _ := fieldOf(fa); n == "packetCount" {
+						st = s
+					}
+				}
+			}
+		})
+		if st != nil {
+			issuedT = affineOf(st.Val)
+			eachInstr(newOID, func(in ssa.Instruction) {
+				if r, ok := in.(*ssa.Return); ok && isReturn(in) {
+					for _, l := range leavesOf(r.Results[0]) {
+						if l.Kind == leafFieldLoad && l.Field == "packetCount" {
+							if li, ok := l.V.(ssa.Instruction); ok && dominates(st, li) {
+								okIssued = true
+							}
+						}
+						if l.V == st.Val {
+							okIssued = true
+						}
+					}
+				}
+			})
+		}
+		c.check(okNext && okIssued && nextT.equal(issuedT), rule, "getNextOrderID predicts newOrderID", p.Pos(getNext.Pos()),
+			"both are packetCount+1", fmt.Sprintf("getNextOrderID returns %s but the next order id issued is %s: the page that holds a received packet is filed under another request's order id and released while still in use", nextT, issuedT))
+		for _, name := range []string{"(*Server).Serve", "(*RequestServer).serveLoop"} {
+			fn := p.Func(name)
+			if fn == nil {
+				c.missing(rule, name)
+				continue
+			}
+			c.looked(name)
+			recvs := callsWhere(fn, func(cc *ssa.CallCommon) bool { return calleeName(cc) == "recvPacket" })
+			if len(recvs) != 1 {
+				c.und(rule, name+" recvPacket", p.Pos(fn.Pos()), fmt.Sprintf("%d recvPacket calls", len(recvs)))
+				continue
+			}
+			rc := recvs[0]
+			arg := argsOf(callOf(rc))[0]
+			fromNext := false
+			for _, l := range leavesOf(arg) {
+				if l.Kind == leafCallResult && l.Call.StaticCallee() == getNext {
+					fromNext = true
+				}
+			}
+			c.check(fromNext, rule, name+" receive page tag", pos(rc), "recvPacket(getNextOrderID())", "the receive buffer is not tagged with getNextOrderID()")
+			l := innermostLoop(loopsOf(fn), rc.Block())
+			if l == nil {
+				c.bad(rule, name+" receive loop", pos(rc), "recvPacket is not in a loop")
+				continue
+			}
+			isNewReq := func(in ssa.Instruction) bool {
+				cc := callOf(in)
+				return cc != nil && cc.StaticCallee() == newReq
+			}
+			_, mx, n := countPaths(fn, rc, isLoopHeadStart(l), isNewReq)
+			c.check(n == 0 || mx <= 1, rule, name+" one order id per received packet", pos(rc), "at most one newOrderedRequest between two receives", "more than one order id can be issued per received packet: the prediction used to tag the page is off")
+		}
+		// the connection and the packet manager share one allocator
+		for _, name := range []string{"WithAllocator$1", "WithRSAllocator$1"} {
+			fn := p.Func(name)
+			if fn == nil {
+				c.missing(rule, name)
+				continue
+			}
+			var vals []ssa.Value
+			eachInstr(fn, func(in ssa.Instruction) {
+				if s, ok := in.(*ssa.Store); ok {
+					if fa, ok := s.Addr.(*ssa.FieldAddr); ok {
+						if _, n, _, _ := fieldOf(fa); n == "alloc" {
+							vals = append(vals, s.Val)
+						}
+					}
+				}
+			})
+			c.check(len(vals) == 2 && vals[0] == vals[1], rule, name+" one allocator", p.Pos(fn.Pos()), "conn and packet manager get the same allocator", "the connection and the packet manager do not share one allocator: pages taken at receive are never released")
+		}
+	}
+
 }
